@@ -185,9 +185,19 @@ def _eval_sim(sc, lb):
                     classes.add("closed-with-orders")
         # state after re-open: first delivered update after a close must see an open market with reset flags
         last_closed = False
+        state_at_close = []
         for r in lb.log:
             if r["market"] != spec["id"] or r["strategy"] != "ALL":
                 continue
+            if r["cb"] == "check_market_book" and last_closed and state_at_close:
+                # middleware state is released at removal: a re-opened market starts from fresh matching state
+                kept = [x for x in r.get("sim_state", []) if any(x is y for y in state_at_close)]
+                if kept:
+                    raise Violation("middleware-state-not-released", ("re-opened",), "market %s re-opened: %d of its %d per-runner matching-state objects are the ones it had before the closure" % (
+                        spec["id"], len(kept), len(r.get("sim_state", []))), sc)
+                state_at_close = []
+            if r["cb"] == "process_closed_market":
+                state_at_close = list(r.get("sim_state", [])) or state_at_close
             if r["cb"] == "process_closed_market":
                 last_closed = True
                 if not r["market_closed"]:
